@@ -1,5 +1,20 @@
-"""C12 -- quaternion and dual-quaternion arithmetic obeys the Hamilton algebra."""
+"""C12 -- quaternion and dual-quaternion arithmetic obeys the Hamilton algebra.
+
+Two parts:
+  A. polynomial identities: T-sym traces of the real code (build) + theories/Props/C12.v + Sym==Num + oracle.
+  B. exp / log round trips: hand model theories/Model/C12_ExpLog.v of Quaternion.exp / Quaternion.log and of
+     what they call (vectors.norm, vectors.unitvec, quaternions.qnorm, quaternions.unit, the (s=, v=)
+     constructors), tied on every run by
+       T-const : fail-closed AST pass (tconst) -> coq/gen/Consts_C12.v: the thresholds of the three branch sites as
+                 terms over the ops record + the branch skeleton / call set of every modelled function,
+       T-num   : Gen.model numeric correspondence (extracted model on OCaml floats vs the real methods) on
+                 directed inputs (scalar part 0 / 1e-18..1e-1 / O(1), vector norm 1e-12..pi..3pi, |q| = 1 +- d,
+                 vector parts below the unitvec threshold), a factor 2 away from each threshold,
+     theorems theories/Props/C12_explog.v over R, and the oracle on the same directed domain (1e-6 relative).
+"""
+import ast
 import math
+import os
 import numpy as np
 import sympy
 from lib import concolic
@@ -11,7 +26,10 @@ concolic.install()
 from spatialmath import base, Quaternion, UnitQuaternion, SE3  # noqa: E402
 from spatialmath.DualQuaternion import DualQuaternion, UnitDualQuaternion  # noqa: E402
 
+from lib.core import REPO  # noqa: E402
+
 MOD = 'Traces_C12'
+EPS = float(np.finfo(np.float64).eps)
 
 
 def unit_v3_small(rng):
